@@ -37,6 +37,10 @@ pub fn make_archive_with(ctx: &mut Ctx, max_len: usize, big: bool, force_writer:
     }
     tweak(&mut spec);
     let max_len = if spec.comp.expensive() { max_len.min(spec.cfg.expected_avg().saturating_mul(24).max(64)) } else { max_len };
+    // big chunks (>= 32 KiB on average): let the source hold several of them when compression
+    // is cheap, or multi-chunk behaviour of large chunks is only seen in the rare "big" runs
+    let cheap = matches!(spec.comp, gen::Comp::None | gen::Comp::Brotli(1..=3) | gen::Comp::Zstd(1..=3));
+    let max_len = if cheap && spec.cfg.expected_avg() >= 32 * 1024 && gen::chance(1, 2) { max_len.max(spec.cfg.expected_avg().saturating_mul(6)).min(1 << 20) } else { max_len };
     let (mut sspec, mut data) = gen::gen_source(&spec.cfg, max_len);
     // the stored-size == source-size corner of the compression rule: fixed-size chunks crafted
     // so that their compressed form has exactly the chunk's size
